@@ -656,7 +656,8 @@ func oracle(c *Case, parts []*pstate, loads, prefetches []loadRec, o rec) []prob
 			if p.out.Dedup || p.arrived[ptBeforeAdd] || p.arrived[ptJoined] {
 				add("", "p%d: a %s was shared with another request", p.id, c.OpType)
 			}
-			if len(myLoads) == 0 && !(len(preBy[p.id]) == 1 && preBy[p.id][0].Result != "ok") {
+			gaveUp := p.cancelled && kind == "ctx" // its own cancellation before it got to work
+			if len(myLoads) == 0 && !gaveUp && !(len(preBy[p.id]) == 1 && preBy[p.id][0].Result != "ok") {
 				add("", "p%d: a %s did not reach upstream (loads=%d requests=%d)", p.id, c.OpType, len(loads), len(parts))
 			}
 		}
